@@ -75,6 +75,14 @@ def _group_of(ctx, f, recv):
             it = None
             if isinstance(cur, ast.For) and isinstance(cur.target, ast.Name) and cur.target.id == e.id:
                 it = cur.iter
+            if isinstance(cur, ast.For) and isinstance(cur.target, (ast.Tuple, ast.List)) and isinstance(cur.iter, ast.Call) and getattr(cur.iter.func, "id", None) in ("zip", "enumerate"):
+                names = [t.id if isinstance(t, ast.Name) else None for t in cur.target.elts]
+                if e.id in names:
+                    k = names.index(e.id)
+                    if cur.iter.func.id == "zip" and k < len(cur.iter.args):
+                        it = cur.iter.args[k]
+                    elif cur.iter.func.id == "enumerate" and k == 1 and cur.iter.args:
+                        it = cur.iter.args[0]
             if isinstance(cur, (ast.ListComp, ast.GeneratorExp, ast.SetComp)):
                 for g in cur.generators:
                     if isinstance(g.target, ast.Name) and g.target.id == e.id:
@@ -89,6 +97,25 @@ def _group_of(ctx, f, recv):
     return None
 
 
+def _loop_source(f, e):
+    """the iterable a loop variable ranges over (zip / enumerate aware)"""
+    cur = getattr(e, "_parent", None)
+    while cur is not None and cur is not f.node:
+        if isinstance(cur, ast.For):
+            if isinstance(cur.target, ast.Name) and cur.target.id == e.id:
+                return cur.iter
+            if isinstance(cur.target, (ast.Tuple, ast.List)) and isinstance(cur.iter, ast.Call) and getattr(cur.iter.func, "id", None) in ("zip", "enumerate"):
+                names = [t.id if isinstance(t, ast.Name) else None for t in cur.target.elts]
+                if e.id in names:
+                    k = names.index(e.id)
+                    if cur.iter.func.id == "zip" and k < len(cur.iter.args):
+                        return cur.iter.args[k]
+                    if cur.iter.func.id == "enumerate" and k == 1 and cur.iter.args:
+                        return cur.iter.args[0]
+        cur = getattr(cur, "_parent", None)
+    return None
+
+
 def _full_range_loop(ctx, f, loop, group):
     """for i in range(self.m_nonlinear_ub) / for model in self._cub"""
     it = loop.iter
@@ -98,7 +125,19 @@ def _full_range_loop(ctx, f, loop, group):
             return True
         if len(it.args) == 1 and isinstance(it.args[0], ast.Call) and getattr(it.args[0].func, "id", None) == "len" and mentions(it.args[0], want[1]):
             return True
+        # range(self.cub_val.shape[1]): the number of columns of the value table
+        a0 = it.args[0] if len(it.args) == 1 else None
+        if isinstance(a0, ast.Subscript) and isinstance(a0.value, ast.Attribute) and a0.value.attr == "shape" and isinstance(a0.slice, ast.Constant) and a0.slice.value == 1 \
+                and isinstance(a0.value.value, ast.Attribute) and a0.value.value.attr.lstrip("_") == want[1].lstrip("_") + "_val":
+            return True
         return False
+    if isinstance(it, ast.Call) and getattr(it.func, "id", None) == "zip" and it.args and isinstance(it.args[0], ast.Attribute) and it.args[0].attr == want[1]:
+        # zip(self._cub, columns): zip stops at the shorter operand, so the
+        # partner must be the transposed value table of the same group
+        for p_ in it.args[1:]:
+            if not (isinstance(p_, ast.Attribute) and p_.attr == "T" and mentions(p_.value, want[1].lstrip("_") + "_val", want[1].lstrip("_") + "_diff")):
+                return False
+        return True
     if isinstance(it, ast.Attribute) and it.attr == want[1]:
         return True
     if isinstance(it, ast.Call) and getattr(it.func, "id", None) == "enumerate" and it.args and isinstance(it.args[0], ast.Attribute) and it.args[0].attr == want[1]:
@@ -424,6 +463,10 @@ def r123(ctx, rep):
             d = arg_for(ev.node, g, "values_diff", "bound")
             grp = _group_of(ctx, f, ev.node.func.value)
             want = {"_fun": "fun_diff", "_cub": "cub_diff", "_ceq": "ceq_diff"}.get(grp)
+            if isinstance(d, ast.Name):
+                src = _loop_source(f, d)
+                if src is not None:
+                    d = src
             if want and isinstance(d, ast.AST) and not mentions(d, want):
                 rep.bad("R12.3", desc + " residual")
                 rep.finding("R12.3", f, ev.text()[:100], ev.line, f"the {grp} model is updated with `{norm(d)}` instead of its own residual `{want}`")
@@ -606,3 +649,137 @@ def r125(ctx, rep):
                             rep.finding("R12.5", mi, norm(node)[:100], node.lineno, f"an initial model value does not come from the evaluation routine: {spaces.fmt(o)}")
     if n < 6:
         raise AnalysisError(f"Models.__init__: only {n} stores of sampled values found (floor 6)")
+
+
+# ---------------------------------------------------------------------------
+def _first_iteration_only(f, store, var, k, kk, at):
+    """The definition `at` of `var` (made before the loop, at the constant
+    interpolation index kk) reaches `store` only in the iteration k == kk:
+    the loop runs k over range(..) starting at kk and every later iteration
+    (test k > kk / k != kk / k >= kk + 1) redefines `var` before the store."""
+    if not isinstance(k, ast.Name) or not isinstance(kk, ast.Constant):
+        return False
+    loops = enclosing_loops(store, stop=f.node)
+    if not loops:
+        return False
+    lp = loops[0]
+    if not (isinstance(lp, ast.For) and isinstance(lp.target, ast.Name) and lp.target.id == k.id):
+        return False
+    it = lp.iter
+    if not (isinstance(it, ast.Call) and getattr(it.func, "id", None) == "range"):
+        return False
+    start = 0 if len(it.args) == 1 else (it.args[0].value if isinstance(it.args[0], ast.Constant) else None)
+    if len(it.args) == 3 and not (isinstance(it.args[2], ast.Constant) and it.args[2].value == 1):
+        return False
+    if start != kk.value:
+        return False
+    # `at` must be outside the loop
+    cur = getattr(at, "_parent", None)
+    while cur is not None:
+        if cur is lp:
+            return False
+        cur = getattr(cur, "_parent", None)
+    # a top-level `if k > kk: var = ...` of the loop body before the store
+    for s_ in lp.body:
+        if s_ is store or getattr(s_, "lineno", 0) >= store.lineno:
+            break
+        if isinstance(s_, ast.If) and isinstance(s_.test, ast.Compare) and len(s_.test.ops) == 1 and isinstance(s_.test.left, ast.Name) and s_.test.left.id == k.id and isinstance(s_.test.comparators[0], ast.Constant):
+            op, c = s_.test.ops[0], s_.test.comparators[0].value
+            later = (isinstance(op, ast.Gt) and c == kk.value) or (isinstance(op, ast.NotEq) and c == kk.value) or (isinstance(op, ast.GtE) and c == kk.value + 1)
+            if later and any(isinstance(b, ast.Assign) and any(isinstance(t, ast.Name) and t.id == var for t in b.targets) for b in s_.body):
+                return True
+    return False
+
+
+def r128(ctx, rep):
+    """Initial sampling: the value recorded for interpolation point k comes
+    from an evaluation *at* interpolation point k (the base point may have
+    been moved away from x0 by Interpolation.__init__)."""
+    from ..inline import expander
+    mi = ctx.func(T.MODELS_INIT)
+    cfg = ctx.cfg(mi)
+    rd = cfg.reaching_defs()
+    inl = expander(ctx, mi)
+    eval_calls = {id(ev.node): ev for ev in ctx.events(mi) if ev.kind == "call" and any(t.kind == "repo" and t.name == T.EVAL for t in ev.targets)}
+    if not eval_calls:
+        raise AnalysisError("Models.__init__: no call of the evaluation routine")
+    E = ctx.func(T.EVAL)
+    n = 0
+    for node in ast.walk(mi.node):
+        if not isinstance(node, ast.Assign):
+            continue
+        for t in node.targets:
+            tl = t.elts if isinstance(t, (ast.Tuple, ast.List)) else [t]
+            for el in tl:
+                base = el
+                while isinstance(base, ast.Subscript):
+                    base = base.value
+                if not (isinstance(el, ast.Subscript) and isinstance(base, ast.Attribute) and base.attr.lstrip("_") in ("fun_val", "cub_val", "ceq_val")):
+                    continue
+                k = el.slice.elts[0] if isinstance(el.slice, ast.Tuple) else el.slice
+                # the evaluation(s) the stored value comes from
+                calls = []
+                if id(node.value) in eval_calls:
+                    calls.append((node.value, node))
+                elif isinstance(node.value, ast.Name):
+                    nid = cfg.node_containing(node)
+                    for d in rd.get(nid, {}).get(node.value.id, ()):
+                        dn = cfg.nodes[d]
+                        if dn.kind == "stmt" and isinstance(dn.ast, ast.Assign) and id(dn.ast.value) in eval_calls:
+                            calls.append((dn.ast.value, dn.ast))
+                        else:
+                            calls.append((None, dn.ast))
+                if not calls:
+                    continue   # R12.5 reports values that do not come from an evaluation
+                n += 1
+                desc = f"{mi.local}:{node.lineno} {norm(el)}"
+                for call, at in calls:
+                    if call is None:
+                        raise AnalysisError(f"{mi.local}:{node.lineno} the value stored in `{norm(el)}` has a definition that is not an evaluation call")
+                    a = arg_for(call, E, "x", "bound")
+                    if not isinstance(a, ast.AST):
+                        raise AnalysisError(f"{mi.local}:{call.lineno} point argument of the evaluation not found")
+                    x = inl.expand(a, at)
+                    kk = None
+                    if isinstance(x, ast.Call) and isinstance(x.func, ast.Attribute) and x.func.attr == "point" and mentions(x.func.value, "interpolation", "_interpolation") and len(x.args) == 1:
+                        kk = x.args[0]
+                    good = False
+                    why = ""
+                    if kk is None:
+                        why = f"the evaluated point `{norm(x)[:50]}` is not interpolation point {norm(k)}"
+                    elif norm(kk) == norm(k):
+                        good = True
+                    elif isinstance(kk, ast.Constant):
+                        for c in enclosing_context(node, mi.node):
+                            if c[0] == "if-true":
+                                tst = c[1]
+                                if isinstance(tst, ast.Compare) and len(tst.ops) == 1 and isinstance(tst.ops[0], ast.Eq):
+                                    pair = {norm(tst.left), norm(tst.comparators[0])}
+                                    if pair == {norm(k), norm(kk)}:
+                                        good = True
+                        if not good and isinstance(k, ast.Constant) and k.value == kk.value:
+                            good = True
+                        if not good and isinstance(node.value, ast.Name) and _first_iteration_only(mi, node, node.value.id, k, kk, at):
+                            good = True
+                        if not good:
+                            why = f"the value of interpolation point {norm(kk)} is stored at index {norm(k)} without a `{norm(k)} == {norm(kk)}` guard"
+                    else:
+                        why = f"evaluated at interpolation point `{norm(kk)}` but stored at index `{norm(k)}`"
+                    if good:
+                        rep.ok("R12.8", desc + f" <- evaluation at interpolation.point({norm(kk)})")
+                    else:
+                        rep.bad("R12.8", desc)
+                        rep.finding("R12.8", mi, norm(node)[:100], node.lineno,
+                                    f"initial sampling: {why}; the models would interpolate a value that was not obtained at the stored point "
+                                    "(Interpolation.__init__ moves the base point away from x0 near the bounds)")
+    if n < 6:
+        raise AnalysisError(f"Models.__init__: only {n} sampled-value stores traced to an evaluation (floor 6)")
+
+
+_old_run12 = run
+
+
+def run(ctx, rep):  # noqa: F811
+    _old_run12(ctx, rep)
+    rep.rule("R12.8", "initial sampling: the value stored for index k comes from the evaluation at interpolation.point(k)")
+    r128(ctx, rep)
